@@ -16,7 +16,7 @@ RangeOf(s) == {s[i] : i \in 1..Len(s)}
 \* JSON arrays -> sets
 WorldOf(j) == [schema |-> {<<x[1], x[2]>> : x \in RangeOf(j.schema)},
                roots |-> RangeOf(j.roots), covers |-> [sh \in DOMAIN j.covers |-> RangeOf(j.covers[sh])], shape |-> j.shape, certs |-> j.certs, pkts |-> j.pkts,
-               kt |-> j.kt, sch |-> j.sch, epoch |-> 0]
+               alg |-> j.alg, sch |-> j.sch, epoch |-> 0]      \* alg: JSON object key -> algorithm (never empty)
 
 TInit == /\ tid \in 1..Len(Traces)
          /\ l = 1 /\ ph = "env"
